@@ -622,6 +622,7 @@ fn one_input(c: &mut Ctx, fam: &str, idx: u64, octets: &[u8], kind: &str) {
 }
 
 pub fn run(c: &mut Ctx) {
+    c.families(3);
     // replay with explicit input
     if let Some(r) = c.replay.clone() {
         if let Some(h) = r.get("extra").and_then(|e| e.get("input_hex")).and_then(|h| h.as_str()) {
